@@ -375,8 +375,11 @@ class AnnotationsItem:
                         run_end += 1
                     if run_end - index == 1:
                         blocks.append(r"[^/]*")
-                    elif path[run_end : run_end + 1] == "/":
-                        # '**/' also matches zero directories.
+                    elif path[run_end : run_end + 1] == "/" and (
+                        not blocks or blocks[-1] == "/"
+                    ):
+                        # '**/' as a whole path component also matches zero
+                        # directories. 'a**/b' does not match 'ab'.
                         blocks.append(r"(?:.*/)?")
                         run_end += 1
                     else:
